@@ -271,6 +271,139 @@ def _mktree():
     return root
 
 
+# ---------------------------------------------------------------- entry-point layer: encoded *structural* metacharacters
+# BRACE / SPLIT / NEGATE act on the pattern text before it is parsed; a RAWCHARS-encoded `{ , } | ! -` must take part in
+# that exactly like the literal character, in every entry point (matchers, translate, filters, the walker, pathlib, WcMatch).
+
+EP_FILES = ['a', 'b', 'c', '{a,b}', 'a|b', '!a', '-a', 'a,b', '.h', 'd/a', 'd/b', 'd/{a,b}']
+EP_BASES = [('{a,b}', 'B'), ('{a,b}', ''), ('a|b', 'S'), ('a|b', ''), ('!a', 'N'), ('!a', ''), ('-a', 'NM'), ('-a', 'N'),
+            ('{a,b}|c', 'BS'), ('{a|b,c}', 'BS'), ('*|!a', 'NS'), ('d/{a,b}', 'B'), ('*/{a,b}', 'B'), ('**/a|b', 'S'),
+            ('{a,b', 'B'), ('a,b}', 'B'), ('@(a|b)', 'S'), ('@(a|b)', ''), ('[a|b]', 'S'), ('{a..c}', 'B'), ('{a..c}', ''),
+            ('\\{a,b}', 'B'), ('*', 'N'), ('!*|a', 'NS'), ('{!a,b}', 'NB'), ('-*|a', 'NMS')]
+EP_META = '{},|!-.'
+EP_FORMS = [lambda c: '\\x%02x' % ord(c), lambda c: '\\%03o' % ord(c), lambda c: '\\u%04x' % ord(c),
+            lambda c: '\\N{%s}' % unicodedata.name(c)]
+EP_FLAGS = {'B': 'BRACE', 'S': 'SPLIT', 'N': 'NEGATE', 'M': 'MINUSNEGATE'}
+
+
+def ep_flags(mod, letters):
+    fl = mod.EXTMATCH if mod is F else (mod.EXTGLOB | mod.GLOBSTAR)
+    for ch in letters:
+        fl |= getattr(mod, EP_FLAGS[ch])
+    return fl
+
+
+def ep_tree():
+    root = tempfile.mkdtemp(prefix='vfc20e_', dir=bind.scratch_base())
+    for f in EP_FILES:
+        full = os.path.join(root, f)
+        os.makedirs(os.path.dirname(full), exist_ok=True)
+        open(full, 'w').close()
+    return root
+
+
+def ep_variants(base, is_bytes):
+    """Every spelling of `base` with one or two of its structural characters written as an escape."""
+    pos = [i for i, c in enumerate(base) if c in EP_META and (i == 0 or base[i - 1] != '\\')]
+    forms = EP_FORMS[:2] if is_bytes else EP_FORMS
+    out = []
+    for r in (1, 2):
+        for comb in itertools.combinations(pos, r):
+            for fs in itertools.product(range(len(forms)), repeat=r):
+                if r == 2 and fs[0] != fs[1] and (fs[0] + fs[1]) % 2:
+                    continue   # thin mixed-form pairs
+                t = list(base)
+                for i, fi in zip(comb, fs):
+                    t[i] = forms[fi](base[i])
+                out.append(''.join(t))
+    return out
+
+
+def ep_observe(entry, pat, letters, raw, root, is_bytes):
+    """One observation of one entry point; `pat` is text, encoded here."""
+    pp = _enc(pat, is_bytes)
+    r = _enc(root, is_bytes)
+    names = [_enc(f, is_bytes) for f in EP_FILES]
+    if entry in ('fn.filter', 'fn.translate'):
+        fl = ep_flags(F, letters) | (F.RAWCHARS if raw else 0)
+        base_names = [n for n in names if (b'/' if is_bytes else '/') not in n]
+        if entry == 'fn.filter':
+            return _call(lambda: sorted(F.filter(base_names, pp, flags=fl)))
+        return _call(lambda: [len(x) for x in F.translate(pp, flags=fl)])
+    fl = ep_flags(G, letters) | (G.RAWCHARS if raw else 0)
+    if entry == 'globfilter':
+        return _call(lambda: sorted(G.globfilter(names, pp, flags=fl)))
+    if entry == 'translate':
+        return _call(lambda: [len(x) for x in G.translate(pp, flags=fl)])
+    if entry == 'glob':
+        return _call(lambda: sorted(G.glob(pp, flags=fl, root_dir=r)))
+    if entry == 'iglob':
+        return _call(lambda: sorted(G.iglob([pp], flags=fl, root_dir=r)))
+    if entry == 'realpath':
+        return _call(lambda: sorted(n for n in names if G.globmatch(n, pp, flags=fl | G.REALPATH, root_dir=r)))
+    if entry == 'pathlib':
+        from wcmatch import pathlib as P
+        fl = ep_flags(P, letters) | (P.RAWCHARS if raw else 0)
+        return _call(lambda: sorted(str(x.relative_to(root)) for x in P.Path(root).glob(pat, flags=fl)))
+    if entry == 'pathlib.match':
+        from wcmatch import pathlib as P
+        fl = ep_flags(P, letters) | (P.RAWCHARS if raw else 0)
+        return _call(lambda: sorted(f for f in EP_FILES if P.PurePosixPath(f).globmatch(pat, flags=fl)))
+    if entry == 'wcmatch':
+        fl = WM.EXTMATCH | WM.RECURSIVE | (WM.RAWCHARS if raw else 0)
+        for ch in letters:
+            if ch in 'BM':
+                fl |= getattr(WM, EP_FLAGS[ch])
+        return _call(lambda: sorted(os.path.relpath(x, r) for x in WM.WcMatch(r, pp, flags=fl).match()))
+    if entry == 'wcmatch.exclude':
+        fl = WM.EXTMATCH | WM.RECURSIVE | (WM.RAWCHARS if raw else 0)
+        for ch in letters:
+            if ch in 'BM':
+                fl |= getattr(WM, EP_FLAGS[ch])
+        return _call(lambda: sorted(os.path.relpath(x, r) for x in WM.WcMatch(r, _enc('*', is_bytes), pp, flags=fl).match()))
+    raise ValueError(entry)
+
+
+EP_ENTRIES = ['fn.filter', 'fn.translate', 'globfilter', 'translate', 'glob', 'iglob', 'realpath', 'pathlib', 'pathlib.match',
+              'wcmatch', 'wcmatch.exclude']
+
+
+def ep_case(base, letters, enc, is_bytes, root, res):
+    for entry in EP_ENTRIES:
+        if is_bytes and entry.startswith('pathlib'):
+            continue
+        want = ep_observe(entry, base, letters, False, root, is_bytes)
+        got = ep_observe(entry, enc, letters, True, root, is_bytes)
+        res.n['evaluations'] += 1
+        res.n['entry_point_compares'] += 1
+        if want[0] == 'ok' and len(want[1]) not in (0, len(EP_FILES)):
+            res.n['distinct_nontrivial'] += 1
+        if got != want:
+            res.outcomes.add('entry-differs')
+            res.add_violation(ID, run.viol('raw-entry', {'pattern': _enc(enc, is_bytes), 'decoded': _enc(base, is_bytes),
+                                                         'flags': letters, 'entry': entry, 'files': EP_FILES}, want, got))
+        else:
+            res.outcomes.add('entry-equal:' + entry)
+
+
+def ep_layer(res, part, parts):
+    root = ep_tree()
+    try:
+        k = 0
+        for base, letters in EP_BASES:
+            for is_bytes in (False, True):
+                for enc in ep_variants(base, is_bytes):
+                    k += 1
+                    if k % parts != part:
+                        continue
+                    if decode(enc, is_bytes) != base:
+                        raise run.HarnessError('C20 entry layer: decoder disagrees on %r' % enc)
+                    ep_case(base, letters, enc, is_bytes, root, res)
+        res.samples.append({'layer': 'entry-points', 'base': EP_BASES[0][0], 'encoded': ep_variants(EP_BASES[0][0], False)[:3]})
+    finally:
+        shutil.rmtree(root, ignore_errors=True)
+
+
 def strings(alpha, length, prefix):
     for tup in itertools.product(alpha, repeat=length - len(prefix)):
         yield prefix + ''.join(tup)
@@ -297,6 +430,10 @@ def plan(tier, seed):
         layers.append({'alphabet': ALPHA_A, 'len': 7, 'exhaustive': False, 'first_char': first,
                        'strings': len(ALPHA_A) ** 6})
     chunks.append(('catalog',))
+    for part in range(16):
+        chunks.append(('entry', part, 16))
+    layers.append({'entry_points': EP_ENTRIES, 'bases': ['%s/%s' % b for b in EP_BASES], 'encodings': 'every 1 or 2 structural '
+                   'characters written as \\xHH, \\OOO, \\uHHHH or \\N{NAME}', 'tree': EP_FILES, 'exhaustive': True})
     layers.append({'catalog': len(CATALOG_ESC) * len(CATALOG_PRE) * len(CATALOG_POST), 'exhaustive': True})
     return {
         'chunks': chunks,
@@ -317,6 +454,9 @@ def run_chunk(chunk):
     kind = chunk[0]
     root = None
     try:
+        if kind == 'entry':
+            ep_layer(res, chunk[1], chunk[2])
+            return res
         if kind == 'catalog':
             root = _mktree()
             for pre in CATALOG_PRE:
@@ -362,6 +502,15 @@ def replay(v):
     pp = inp['pattern']
     is_bytes = isinstance(pp, bytes)
     p = pp.decode('latin-1') if is_bytes else pp
+    if kind == 'raw-entry':
+        root = ep_tree()
+        try:
+            want = ep_observe(inp['entry'], inp['decoded'].decode('latin-1') if is_bytes else inp['decoded'], inp['flags'], False,
+                              root, is_bytes)
+            got = ep_observe(inp['entry'], p, inp['flags'], True, root, is_bytes)
+            return {'violates': got != want, 'observed': got}
+        finally:
+            shutil.rmtree(root, ignore_errors=True)
     if kind == 'raw-wcmatch':
         root = _mktree()
         try:
